@@ -321,6 +321,12 @@ func (r *Run) siteChecks(fr *Frame, st *State, instr ssa.Instruction, callerCt *
 		if ss.Ordinal >= 0 && ss.Ordinal != ord {
 			continue
 		}
+		if ss.ValueOf != "" && !strings.HasSuffix(site, "@"+ss.ValueOf) {
+			continue
+		}
+		if ss.ValueOf == "" && isSend && strings.Contains(site, "@") {
+			continue
+		}
 		se := &Env{r: r, st: st, old: r.entry, fr: fr, vars: map[string]*Val{}, ctx: site}
 		for k, v := range r.varsFor(fr) {
 			se.vars[k] = v
@@ -339,7 +345,7 @@ func (r *Run) siteChecks(fr *Frame, st *State, instr ssa.Instruction, callerCt *
 			r.emit(st, kind+site+"/"+cl.Label, "callsite", propsOr(cl.Props, ctProps(callerCt)), g)
 			st.assume(g)
 		}
-		r.sitesHit[fnName(fr.fn)+"|"+ss.Callee+"|"+fmt.Sprint(ss.Ordinal)+"|"+fmt.Sprint(isSend)] = true
+		r.sitesHit[fnName(fr.fn)+"|"+ss.Callee+"|"+fmt.Sprint(ss.Ordinal)+ss.ValueOf+"|"+fmt.Sprint(isSend)] = true
 	}
 }
 
@@ -532,6 +538,18 @@ func (r *Run) sendCheck(fr *Frame, st *State, instr ssa.Instruction, ch, x ssa.V
 	v := r.val(fr, st, x)
 	cv := r.val(fr, st, ch)
 	site := fmt.Sprintf("%s#%d", field, r.sendOrdinal(instr, field, -1))
+	// a send whose value is the result of a static call can be named by that callee instead of by its position
+	if c, ok := x.(*ssa.Call); ok {
+		if callee := r.eng.calleeName(&c.Call); callee != "" {
+			if ct := r.contractFor(fr.fn); ct != nil {
+				for _, ss := range ct.Sites {
+					if ss.IsSend && ss.Callee == field && ss.ValueOf == callee {
+						site = field + "@" + callee
+					}
+				}
+			}
+		}
+	}
 	if fr.fn != r.fn {
 		site = fnName(fr.fn) + ":" + site
 	}
